@@ -378,6 +378,41 @@ async fn run_cfg<TC: Tcfg>(case: &Case, st: &mut Stats) -> R {
             st.shadow_own_hash += 1;
         }
     }
+    // (3b) multi-step splices: steps taken from the honest history followed by steps of the dishonest history (and
+    // vice versa), presented for the root hashes each step's own source tree had - every step's END hash is then
+    // right, only the START hash of the first spliced step is not. Accepted => each consecutive pair of (known)
+    // root hashes must commit a growing leaf set.
+    {
+        let at = |set: &Leaves, k: u64| -> Leaves { set.iter().filter(|(_, (_, ep))| *ep <= k).map(|(a, b)| (*a, *b)).collect() };
+        let roots_h: Vec<D> = (0..=e + 1).map(|k| model_root(c, &at(&sh, k))).collect();
+        let roots_2: Vec<D> = (0..=e + 1).map(|k| model_root(c, &at(&s2, k))).collect();
+        let full_h = azks_h.get_append_only_proof::<TC, _>(&st_h, 0, e + 1, ParKind::Disabled.cfg()).await.map_err(akd_err("audit-gen-err", "honest multi-epoch proof"))?;
+        let full_2 = azks_2.get_append_only_proof::<TC, _>(&st_2, 0, e + 1, ParKind::Disabled.cfg()).await.map_err(akd_err("audit-gen-err", "dishonest-tree multi-epoch proof"))?;
+        ensure!(audit_verify::<TC>(roots_h.clone(), full_h.clone()).await.is_ok(), "audit-honest-rejected", "honest multi-epoch proof 0..{} rejected", e + 1);
+        for j in 1..=e as usize {
+            for first_honest in [true, false] {
+                let (pa, pb, ra, rb, sa, sb) = if first_honest { (&full_h, &full_2, &roots_h, &roots_2, &sh, &s2) } else { (&full_2, &full_h, &roots_2, &roots_h, &s2, &sh) };
+                let proof = AppendOnlyProof { proofs: [&pa.proofs[..j], &pb.proofs[j..]].concat(), epochs: (0..=e).collect() };
+                let hashes: Vec<D> = [&ra[..=j], &rb[j + 1..]].concat();
+                st.candidates += 1;
+                if audit_verify::<TC>(hashes, proof).await.is_ok() {
+                    st.accepted += 1;
+                    // the only unknown transition is the splice point: leaves committed by ra[j] vs rb[j+1]
+                    let before = at(sa, j as u64);
+                    let after = at(sb, j as u64 + 1);
+                    let lost = before.iter().filter(|(l, v)| after.get(*l) != Some(*v)).count();
+                    ensure!(
+                        lost == 0,
+                        "audit-accepts-spliced-history",
+                        "a {}-step audit whose first {j} step(s) come from the {} history and the rest from the other one was accepted for the hashes of the respective source trees, although {lost} leaf/leaves committed by hash #{j} are not committed unchanged by hash #{}",
+                        e + 1,
+                        if first_honest { "honest" } else { "dishonest" },
+                        j + 1
+                    );
+                }
+            }
+        }
+    }
     // (4)/(5): multi-epoch proof: inconsistent lengths, altered root hashes
     if e >= 2 {
         let roots: Vec<D> = (0..=e + 1).map(|i| model_root(c, &sh.iter().filter(|(_, (_, ep))| *ep <= i).map(|(k, v)| (*k, *v)).collect())).collect();
